@@ -484,6 +484,54 @@ static void alignmentInAggregate()
   vh::evaluated(4242, true);
 }
 
+// value_or across payload / default types: an engaged wrapper returns ITS value, bit for bit, whatever the type of the
+// default handed in (a narrower or a floating default must not drag the stored value through that type); an empty one
+// returns the default converted to the payload type
+template <typename T, typename U>
+static void valueOrPair(const char *tn, const char *un, const std::vector<T> &values, U dflt)
+{
+  for (size_t i = 0; i < values.size(); ++i) {
+    Optional<T> o(values[i]);
+    T got = o.value_or(dflt);
+    if (!(got == values[i]))
+      vh::violation(std::string("C09:Optional<") + tn + ">:value_or", std::string("engaged value_or(") + un + " default) returned " + std::to_string(got) + ", the stored value is " + std::to_string(values[i]), "value_or across types");
+    const Optional<T> c(o);
+    if (!(c.value_or(dflt) == values[i]) || !(*c == values[i]))
+      vh::violation(std::string("C09:Optional<") + tn + ">:value_or", "const copy: value_or / operator* differ from the stored value", "value_or across types");
+  }
+  Optional<T> e;
+  if (!(e.value_or(dflt) == static_cast<T>(dflt)))
+    vh::violation(std::string("C09:Optional<") + tn + ">:value_or", std::string("empty value_or(") + un + " default) is not the default converted to the payload type", "value_or across types");
+  vh::count("value_or_across_types", (long long)values.size() + 1);
+}
+static void valueOrAcrossTypes()
+{
+  std::vector<int> vi;
+  std::vector<long long> vl;
+  std::vector<unsigned> vu;
+  for (int sh = 20; sh <= 30; ++sh)
+    for (int d = -1; d <= 1; ++d)
+      vi.push_back((1 << sh) + d), vi.push_back(-((1 << sh) + d)), vu.push_back((1u << sh) + (unsigned)d);
+  vi.push_back(2147483647), vi.push_back(-2147483647 - 1), vu.push_back(4294967295u), vu.push_back(3000000001u);
+  for (int sh = 50; sh <= 62; ++sh)
+    for (int d = -1; d <= 1; ++d)
+      vl.push_back((1LL << sh) + d), vl.push_back(-((1LL << sh) + d));
+  valueOrPair<int, float>("int", "float", vi, 0.5f);
+  valueOrPair<int, double>("int", "double", vi, 2.5);
+  valueOrPair<int, short>("int", "short", vi, (short)7);
+  valueOrPair<int, long long>("int", "int64", vi, 9LL);
+  valueOrPair<unsigned, float>("unsigned", "float", vu, 1.5f);
+  valueOrPair<unsigned, int>("unsigned", "int", vu, 3);
+  valueOrPair<long long, double>("int64", "double", vl, 0.0);
+  valueOrPair<long long, float>("int64", "float", vl, 1.0f);
+  valueOrPair<long long, int>("int64", "int", vl, 5);
+  std::vector<double> vd;
+  vd.push_back(0.1), vd.push_back(1e300), vd.push_back(-2.5e-300), vd.push_back(16777217.0);
+  valueOrPair<double, float>("double", "float", vd, 0.25f);
+  valueOrPair<double, int>("double", "int", vd, 4);
+  vh::evaluated(4244, true);
+}
+
 static void envVars(long caseIdx)
 {
   std::string ctx = "#" + std::to_string(caseIdx) + " getEnvVar";
@@ -716,6 +764,8 @@ int main(int argc, char **argv)
             alignmentInAggregate();
           else
             envVars(k);
+          if (k % 90 == 8)
+            valueOrAcrossTypes();
           if (k % 4 < 2)
             optionalHistory<Tracked>(r, k, len);
           else
